@@ -290,6 +290,64 @@ pub fn run_c06(args: &Args) -> Report {
             }
         }
     }
+    // outputs much larger than any I/O buffer (8 KiB BufReader/BufWriter, 64 KiB pipes): lines and included blocks of
+    // many sizes, so that compared chunks straddle every buffer boundary; verify right after the build must pass, and
+    // one changed byte far into the file must fail
+    // (oracle only: the model has no notion of a buffer, and 40 KB cases are slow in it)
+    if args.shard == 1 % args.shards.max(1) {
+        let mut big = Runner::new(args, "c06big");
+        for (k, unit) in [7usize, 61, 509, 4099].iter().enumerate() {
+            for crlf in [false, true] {
+                let le = if crlf { "\r\n" } else { "\n" };
+                let mut src = String::new();
+                let mut inc = String::new();
+                for l in 0..(40_000 / (unit + 1) + 2) {
+                    src.push_str(&"s".repeat(unit + l % 3));
+                    src.push_str(le);
+                    inc.push_str(&"i".repeat(unit + l % 5));
+                    inc.push_str(le);
+                    if l % 97 == 5 {
+                        src.push_str(&format!("  TXTPP#include big_inc.txt{le}"));
+                    }
+                }
+                src.push_str(&format!("TXTPP#include big_inc.txt{le}last line{le}"));
+                let p = Project {
+                    files: vec![("big.txt.txtpp".into(), src.into_bytes()), ("big_inc.txt".into(), inc.into_bytes())],
+                    dirs: vec![],
+                    cmds: vec![],
+                    sources: vec!["big.txt.txtpp".into()],
+                    sig: vec![],
+                    expect_error: false,
+                };
+                materialize(&p, &big.dir);
+                let mut cfg = RunCfg::build_all();
+                cfg.threads = 1;
+                let b = big.run_here(&cfg, &p.cmds, vec![format!("large-output|{k}|{crlf}|build")], "large output: build");
+                let mut vcfg = cfg.clone();
+                vcfg.mode = "verify";
+                let v0 = big.run_here(&vcfg, &p.cmds, vec![format!("large-output|{k}|{crlf}|verify-fresh")], "large output: verify right after the build");
+                if big.cases[b].imp.verdict != "ok" || big.cases[v0].imp.verdict != "ok" {
+                    viol(&mut rep, &big, v0, format!("C06: build + verify of a source with a large output (lines of about {unit} bytes, {} bytes in all) gives `{}` / `{}`", big.cases[b].imp.after.files.get("big.txt").map(|x| x.len()).unwrap_or(0), big.cases[b].imp.verdict, big.cases[v0].imp.verdict));
+                }
+                check_outputs_untouched(&mut rep, &big, v0, &["big.txt".to_string()], "verify");
+                if let Some(out) = big.cases[b].imp.after.files.get("big.txt").cloned() {
+                    for at in [8191usize, 8192, 16384 + 3, out.len() - 2] {
+                        if at < out.len() {
+                            let mut t = out.clone();
+                            t[at] = if t[at] == b'X' { b'Y' } else { b'X' };
+                            let _ = std::fs::write(big.dir.join("big.txt"), &t);
+                            let v1 = big.run_here(&vcfg, &p.cmds, vec![format!("large-output|{k}|{crlf}|verify-after-flip")], &format!("large output: verify after byte {at} was changed"));
+                            if big.cases[v1].imp.verdict == "ok" {
+                                viol(&mut rep, &big, v1, format!("C06: verify passes although byte {at} of the {}-byte output was changed", out.len()));
+                            }
+                        }
+                    }
+                }
+            }
+        }
+            rep.countn("large-output-runs (oracle only)", big.cases.len() as u64);
+        big.cleanup();
+    }
     report_side_condition(&mut rep, &model, &safe_reqs);
     compare_all(&mut rep, &runner, &model, "C06", "C06.stream_compare_iff, verify_ok_iff_uptodate, verify_open_readonly, verify_untouched");
     runner.cleanup();
@@ -662,6 +720,24 @@ pub fn run_c09(args: &Args) -> Report {
         }
         if i == 0 {
             rep.sample(format!("sources {:?}: needed-build over a mix of up-to-date/stale/missing generated files equals a normal build", p.sources));
+        }
+    }
+    // "succeeds exactly when a normal build does": sources with directive errors (unused tag, missing include, failing
+    // command, bad temp target ...) must fail under `--needed` exactly like under a normal build
+    for k in 0..(n / 4 + 1) {
+        let opts = GenOpts { error_pct: 100, max_sources: 2, ..GenOpts::default() };
+        let p = gen_project(&mut rng, &opts);
+        let mut verdicts = vec![];
+        for mode in ["build", "needed"] {
+            materialize(&p, &runner.dir);
+            let mut cfg = RunCfg::build_all();
+            cfg.threads = 2;
+            cfg.mode = mode;
+            let idx = runner.run_here(&cfg, &p.cmds, vec![format!("erroneous|{mode}|{}", p.sig.iter().filter(|x| x.starts_with("err:")).cloned().collect::<Vec<_>>().join("+"))], &format!("erroneous project #{k} {mode}"));
+            verdicts.push(runner.cases[idx].imp.verdict.clone());
+        }
+        if (verdicts[0] == "ok") != (verdicts[1] == "ok") {
+            viol(&mut rep, &runner, runner.cases.len() - 1, format!("C09: needed gives `{}`, a normal build of the same tree gives `{}` (sources with directive errors: {:?})", verdicts[1], verdicts[0], p.sig.iter().filter(|x| x.starts_with("err:")).collect::<Vec<_>>()));
         }
     }
     report_side_condition(&mut rep, &model, &safe_reqs);
